@@ -51,50 +51,71 @@ def resolve(n, cpus):
 
 
 out = dict(joblib=joblib.__file__, obs=[], runs=[], nest=None)
-cpus = ref_cpu_count()
-out["ref_cpu_count"] = cpus
-out["cpu_count"] = joblib.cpu_count()
-logdir = cfg["dir"]
-backend = cfg["backend"]
-kw = {} if backend == "default" else {"backend": backend}
 
-# --- arithmetic: effective_n_jobs and n_jobs=0
-for n in cfg["n_jobs_arith"]:
-    rec = dict(n=n, want=resolve(n, cpus))
-    try:
-        with joblib.parallel_config(**kw):
-            rec["effective"] = effective_n_jobs(n)
-    except ValueError:
-        rec["effective"] = "ValueError"
-    if n == 0:
+
+def observe():
+    global cpus, caller
+    if cfg.get("thread_mask"):
+        # on Linux the affinity mask belongs to the THREAD: this (non-main) thread narrows its own
+        os.sched_setaffinity(0, set(range(cfg["thread_mask"])))
+    _observe()
+
+
+def _observe():
+  global cpus, caller
+  if True:
+    cpus = ref_cpu_count()
+    out["ref_cpu_count"] = cpus
+    out["cpu_count"] = joblib.cpu_count()
+    logdir = cfg["dir"]
+    backend = cfg["backend"]
+    kw = {} if backend == "default" else {"backend": backend}
+
+    # --- arithmetic: effective_n_jobs and n_jobs=0
+    for n in cfg["n_jobs_arith"]:
+        rec = dict(n=n, want=resolve(n, cpus))
         try:
-            Parallel(n_jobs=0, **kw)(delayed(abs)(i) for i in range(2))
-            rec["parallel"] = "accepted"
+            with joblib.parallel_config(**kw):
+                rec["effective"] = effective_n_jobs(n)
         except ValueError:
-            rec["parallel"] = "ValueError"
-    out["obs"].append(rec)
+            rec["effective"] = "ValueError"
+        if n == 0:
+            try:
+                Parallel(n_jobs=0, **kw)(delayed(abs)(i) for i in range(2))
+                rec["parallel"] = "accepted"
+            except ValueError:
+                rec["parallel"] = "ValueError"
+        out["obs"].append(rec)
 
-# --- real concurrency
-caller = (os.getpid(), threading.get_native_id())
-for k, n in enumerate(cfg["n_jobs_run"]):
-    want = resolve(n, cpus)
-    N = 3 * want + 2
-    logf = os.path.join(logdir, f"run{k}.log")
-    rng_durs = [0.02 + 0.01 * ((i * 7) % 5) for i in range(N)]
-    t0 = time.monotonic()
-    res = Parallel(n_jobs=n, batch_size=1, **kw)(delayed(c15_tasks.timed)(i, logf, rng_durs[i], 0) for i in range(N))
-    rows = [l.split() for l in open(logf).read().splitlines()]
-    out["runs"].append(dict(n=n, want=want, N=N, ok=res == list(range(N)),
-                            rows=[[int(r[0]), int(r[1]), int(r[2]), float(r[3]), float(r[4])] for r in rows], caller=caller))
+    # --- real concurrency
+    caller = (os.getpid(), threading.get_native_id())
+    for k, n in enumerate(cfg["n_jobs_run"]):
+        want = resolve(n, cpus)
+        N = 3 * want + 2
+        logf = os.path.join(logdir, f"run{k}.log")
+        rng_durs = [0.02 + 0.01 * ((i * 7) % 5) for i in range(N)]
+        t0 = time.monotonic()
+        res = Parallel(n_jobs=n, batch_size=1, **kw)(delayed(c15_tasks.timed)(i, logf, rng_durs[i], 0) for i in range(N))
+        rows = [l.split() for l in open(logf).read().splitlines()]
+        out["runs"].append(dict(n=n, want=want, N=N, ok=res == list(range(N)),
+                                rows=[[int(r[0]), int(r[1]), int(r[2]), float(r[3]), float(r[4])] for r in rows], caller=caller))
 
-# --- nesting
-if cfg.get("nest"):
-    logf = os.path.join(logdir, "nest.log")
-    depth = cfg["nest"]["depth"]
-    Parallel(n_jobs=cfg["nest"]["outer_n"], batch_size=1, **kw)(
-        delayed(c15_tasks.nested)(0, depth, cfg["nest"]["inner_n"], logf, [i]) for i in range(cfg["nest"]["outer_n"] + 1))
-    rows = [l.split() for l in open(logf).read().splitlines()]
-    out["nest"] = dict(rows=[[int(r[0]), int(r[1]), int(r[2]), r[3], int(r[4]), int(r[5])] for r in rows], caller=caller, cfg=cfg["nest"])
+    # --- nesting
+    if cfg.get("nest"):
+        logf = os.path.join(logdir, "nest.log")
+        depth = cfg["nest"]["depth"]
+        Parallel(n_jobs=cfg["nest"]["outer_n"], batch_size=1, **kw)(
+            delayed(c15_tasks.nested)(0, depth, cfg["nest"]["inner_n"], logf, [i]) for i in range(cfg["nest"]["outer_n"] + 1))
+        rows = [l.split() for l in open(logf).read().splitlines()]
+        out["nest"] = dict(rows=[[int(r[0]), int(r[1]), int(r[2]), r[3], int(r[4]), int(r[5])] for r in rows], caller=caller, cfg=cfg["nest"])
+
+
+if cfg.get("thread_mask"):
+    t = threading.Thread(target=observe)
+    t.start()
+    t.join()
+else:
+    observe()
 
 with open(sys.argv[2] + ".tmp", "w") as f:
     json.dump(out, f)
